@@ -58,8 +58,14 @@ class Session:
         class ScriptedInput:
             def __init__(self):
                 self.i = 0
+                self.rest = None
 
-            def readline(self):
+            def readline(self, size=-1):
+                if self.rest is not None:
+                    # the caller limits the line length: hand out the rest of the current line piecewise, as a file would
+                    chunk, self.rest = self.rest[:size], self.rest[size:] or None
+                    sess.events.append(('read', self.i - 1))
+                    return chunk
                 i = self.i
                 for cmd in hooks.get(i, ()):  # what GDB mode / a user at the prompt does between two lines
                     if callable(cmd):
@@ -71,6 +77,9 @@ class Session:
                 self.i += 1
                 if i < len(lines) and lines[i] != '':
                     sess.events.append(('read', i))
+                    if size is not None and 0 <= size < len(lines[i]):
+                        self.rest = lines[i][size:]
+                        return lines[i][:size]
                     return lines[i]
                 # (an empty string without newline is not a line: it is how a text stream reports its end)
                 sess.events.append(('eof', i))
